@@ -2587,10 +2587,6 @@ where
 ///
 /// Returns a [`DelaunayRepairError`] if the repair fails to converge or an underlying
 /// flip operation encounters an unrecoverable error.
-#[expect(
-    clippy::too_many_lines,
-    reason = "Repair retries and tracing are kept together for clarity"
-)]
 pub(crate) fn repair_delaunay_with_flips_k2_k3<K, U, V, const D: usize>(
     tds: &mut Tds<K::Scalar, U, V, D>,
     kernel: &K,
@@ -2607,6 +2603,34 @@ where
         return Err(FlipError::UnsupportedDimension { dimension: D }.into());
     }
 
+    // Snapshot the pre-repair state so a failed attempt doesn't poison retries, and so that an
+    // `Err` leaves the triangulation exactly as it was (transactional contract).
+    let tds_snapshot = tds.clone();
+    let result = repair_delaunay_with_flips_k2_k3_attempts(tds, kernel, seed_cells, &tds_snapshot);
+    if result.is_err() {
+        *tds = tds_snapshot;
+    }
+    result
+}
+
+/// The attempt ladder of [`repair_delaunay_with_flips_k2_k3`]; on `Err` the TDS may be left in
+/// the state of the last attempt (the caller restores `tds_snapshot`).
+#[expect(
+    clippy::too_many_lines,
+    reason = "Repair retries and tracing are kept together for clarity"
+)]
+fn repair_delaunay_with_flips_k2_k3_attempts<K, U, V, const D: usize>(
+    tds: &mut Tds<K::Scalar, U, V, D>,
+    kernel: &K,
+    seed_cells: Option<&[CellKey]>,
+    tds_snapshot: &Tds<K::Scalar, U, V, D>,
+) -> Result<DelaunayRepairStats, DelaunayRepairError>
+where
+    K: Kernel<D>,
+    K::Scalar: ScalarSummable,
+    U: DataType,
+    V: DataType,
+{
     #[cfg(feature = "verif-hooks")]
     crate::verif_failpoints::hit::<DelaunayRepairError>("repair.entry")?;
     // In debug/test builds (especially for 3D+), prefer a fully-robust predicate pass.
@@ -2630,9 +2654,6 @@ where
         use_robust_on_ambiguous: true,
         max_flips_override: None,
     };
-    // Snapshot the pre-repair state so a failed attempt doesn't poison retries.
-    let tds_snapshot = tds.clone();
-
     let attempt1_result = if D == 2 {
         repair_delaunay_with_flips_k2_attempt(tds, kernel, seed_cells, &attempt1)
     } else {
@@ -2681,7 +2702,7 @@ where
             }
 
             // Final attempt with alternate queue order.
-            *tds = tds_snapshot;
+            *tds = tds_snapshot.clone();
             let stats3 = if D == 2 {
                 repair_delaunay_with_flips_k2_attempt(tds, kernel, retry_seed_cells, &attempt3)
             } else {
@@ -2728,7 +2749,7 @@ where
             }
 
             // Final attempt with alternate queue order.
-            *tds = tds_snapshot;
+            *tds = tds_snapshot.clone();
             let stats3 = if D == 2 {
                 repair_delaunay_with_flips_k2_attempt(tds, kernel, retry_seed_cells, &attempt3)
             } else {
